@@ -1,0 +1,199 @@
+//go:build verif
+
+// Contracts for the deductive verification in /verif (govc): OCSP requests and responses
+// (properties C13, C01, C03). This file contains comments only; it is compiled only with
+// -tags verif and declares nothing.
+
+package ocsp
+
+//@ pred oidEq(a, b) = len(a) == len(b) && forall(k, 0, len(a), a[k] == b[k])
+
+// ---------------------------------------------------------------- signature events
+// ghost.sigOK(c, algo, signed, signature): "a call c.CheckSignature(algo, signed, signature)
+// returned nil" - set only by the assumed contract of (*x509.Certificate).CheckSignature
+// (/verif/extern/ocsp.contracts). No function of this package can establish it otherwise.
+//   respSigOK(r, c): the signature of response r was verified with c's public key over r's
+//                    signed bytes (RFC 6960 4.2.1: the signature is computed on the hash of
+//                    the DER encoding of ResponseData = r.TBSResponseData)
+//   certSigOK(i, c): the signature of certificate c was verified with i's public key
+//@ pred respSigOK(r, c) = ghost.sigOK(c, r.SignatureAlgorithm, r.TBSResponseData, r.Signature)
+//@ pred certSigOK(i, c) = ghost.sigOK(i, c.SignatureAlgorithm, c.RawTBSCertificate, c.Signature)
+
+// "returns the x509.SignatureAlgorithm of the OID": table scan, no effect.
+//@ func getSignatureAlgorithmFromOID
+//@   modifies nothing
+//@   terminates
+
+// "CheckSignatureFrom checks that the signature in resp is a valid signature from issuer."
+// (C03, C13) A nil result means exactly that check was made and succeeded.
+//@ func (*Response).CheckSignatureFrom
+//@   requires resp != nil && issuer != nil && keyOK(issuer.PublicKey)
+//@   ensures  result == nil ==> respSigOK(resp, issuer)
+//@   modifies ghost.sigOK
+//@   terminates
+
+// ---------------------------------------------------------------- ParseResponseForCert
+// Written from the doc comments of ParseResponse / ParseResponseForCert / Response, the C13
+// statement and RFC 6960:
+//  [sig_embedded]  an embedded certificate is used to verify the response signature
+//  [sig_chain]     ... and, with an issuer, the issuer verifies the embedded certificate
+//  [sig_direct]    no embedded certificate: the issuer verifies the response signature
+//  [bound]         C13: with an issuer a response is accepted only if its signature verifies
+//                  under that issuer, directly or through an embedded certificate it signed
+//  [serial]        the status returned is one whose serial equals cert's
+//  [first],[one]   (assertions at the first call after the selection) it is the FIRST such
+//                  single response; without cert the response holds exactly one
+//  [status]        Status is one of Good/Revoked/Unknown, IsRevoked <==> Revoked
+//  [critical]      no critical singleExtension is accepted (RFC 5280 4.2 rule applied by
+//                  the package: "unsupported critical extension")
+//  [issuerhash]    "Valid values are crypto.SHA1, crypto.SHA256, crypto.SHA384, and crypto.SHA512"
+//  [responder]     "Exactly one of RawResponderName and ResponderKeyHash is set"
+// Assumptions (requires): a certificate handed in has a serial number and a well-formed
+// public key (true of everything x509.ParseCertificate returns).
+// Frame: `modifies all` (no frame claimed). The function writes nothing that existed before, but
+// the frame obligations over its 23 returns and 8 allocating calls are out of the solver's
+// reach within the time limit (20-95 s each when merged, 276 obligations when per return); the
+// property does not ask for a frame. No `uses perreturn` for the same reason (x23 obligations).
+//@ pred R(b) = b.TBSResponseData.Responses
+//@ pred sameSingle(a, b) = a.CertID.SerialNumber == b.CertID.SerialNumber && same(a.CertID.HashAlgorithm.Algorithm, b.CertID.HashAlgorithm.Algorithm) && a.Good == b.Good && a.Unknown == b.Unknown && a.Revoked.Reason == b.Revoked.Reason && same(a.SingleExtensions, b.SingleExtensions)
+//@ func ParseResponseForCert
+//@   requires cert != nil ==> cert.SerialNumber != nil
+//@   requires issuer != nil ==> keyOK(issuer.PublicKey)
+//@   loop 1 invariant forall(j, 0, it, !ghost.bigEq(cert.SerialNumber, R(basicResp)[j].CertID.SerialNumber))
+//@   loop 2 invariant allocated(ret) && same(ret.Extensions, singleResp.SingleExtensions)
+//@   loop 2 invariant forall(j, 0, it, !ret.Extensions[j].Critical)
+//@   at call RightAlign assert cert == nil ==> len(R(basicResp)) == 1 && sameSingle(singleResp, R(basicResp)[0])
+//@   at call RightAlign assert cert != nil ==> exists(k, 0, len(R(basicResp)), ghost.bigEq(cert.SerialNumber, R(basicResp)[k].CertID.SerialNumber) && forall(j, 0, k, !ghost.bigEq(cert.SerialNumber, R(basicResp)[j].CertID.SerialNumber)) && sameSingle(singleResp, R(basicResp)[k]))
+//@   ensures  [shape] result1 == nil ==> result0 != nil && fresh(result0)
+//@   ensures  [err] result1 != nil ==> result0 == nil
+//@   ensures  [sig_embedded] result1 == nil && result0.Certificate != nil ==> respSigOK(result0, result0.Certificate)
+//@   ensures  [sig_chain] result1 == nil && result0.Certificate != nil && issuer != nil ==> certSigOK(issuer, result0.Certificate)
+//@   ensures  [sig_direct] result1 == nil && result0.Certificate == nil && issuer != nil ==> respSigOK(result0, issuer)
+//@   ensures  [bound] result1 == nil && issuer != nil ==> (result0.Certificate != nil && respSigOK(result0, result0.Certificate) && certSigOK(issuer, result0.Certificate)) || (result0.Certificate == nil && respSigOK(result0, issuer))
+//@   ensures  [serial] result1 == nil && cert != nil ==> ghost.bigEq(cert.SerialNumber, result0.SerialNumber)
+//@   ensures  [status] result1 == nil ==> (result0.Status == Good || result0.Status == Revoked || result0.Status == Unknown) && (result0.IsRevoked <==> result0.Status == Revoked)
+//@   ensures  [critical] result1 == nil ==> forall(i, 0, len(result0.Extensions), !result0.Extensions[i].Critical)
+//@   ensures  [issuerhash] result1 == nil ==> result0.IssuerHash != 0 && has(hashOIDs, result0.IssuerHash)
+//@   ensures  [responder] result1 == nil ==> (result0.RawResponderName != nil) != (result0.ResponderKeyHash != nil)
+//@   modifies all
+
+// "ParseResponse parses an OCSP response in DER form. The response must contain only one
+// certificate status" - ParseResponseForCert without a certificate: same clauses.
+//@ func ParseResponse
+//@   requires issuer != nil ==> keyOK(issuer.PublicKey)
+//@   ensures  [shape] result1 == nil ==> result0 != nil && fresh(result0)
+//@   ensures  [err] result1 != nil ==> result0 == nil
+//@   ensures  [sig_embedded] result1 == nil && result0.Certificate != nil ==> respSigOK(result0, result0.Certificate)
+//@   ensures  [bound] result1 == nil && issuer != nil ==> (result0.Certificate != nil && respSigOK(result0, result0.Certificate) && certSigOK(issuer, result0.Certificate)) || (result0.Certificate == nil && respSigOK(result0, issuer))
+//@   ensures  [status] result1 == nil ==> (result0.Status == Good || result0.Status == Revoked || result0.Status == Unknown) && (result0.IsRevoked <==> result0.Status == Revoked)
+//@   ensures  [critical] result1 == nil ==> forall(i, 0, len(result0.Extensions), !result0.Extensions[i].Critical)
+//@   ensures  [issuerhash] result1 == nil ==> result0.IssuerHash != 0 && has(hashOIDs, result0.IssuerHash)
+//@   modifies all
+//@   terminates
+
+// ---------------------------------------------------------------- hash identifiers
+// RFC 6960 4.1.1 CertID.hashAlgorithm; the table hashOIDs (assigned only by the package
+// initialiser) holds exactly SHA-1 (1.3.14.3.2.26, OIW) and SHA-256/384/512
+// (2.16.840.1.101.3.4.2.{1,2,3}, NIST CSOR): four different OIDs, so the table is injective.
+//@ pred sha1OID(a) = len(a) == 6 && a[0] == 1 && a[1] == 3 && a[2] == 14 && a[3] == 3 && a[4] == 2 && a[5] == 26
+//@ pred sha2OID(a, n) = len(a) == 9 && a[0] == 2 && a[1] == 16 && a[2] == 840 && a[3] == 1 && a[4] == 101 && a[5] == 3 && a[6] == 4 && a[7] == 2 && a[8] == n
+//@ pred tableHash(h) = h == crypto.SHA1 || h == crypto.SHA256 || h == crypto.SHA384 || h == crypto.SHA512
+//@ global hashOIDs != nil && forallv(h, crypto.Hash, has(hashOIDs, h) <==> tableHash(h))
+//@ global sha1OID(hashOIDs[crypto.SHA1]) && sha2OID(hashOIDs[crypto.SHA256], 1) && sha2OID(hashOIDs[crypto.SHA384], 2) && sha2OID(hashOIDs[crypto.SHA512], 3)
+
+// The hash a parser reports for an OID is a table entry with exactly that OID; by
+// injectivity of the table it is THE hash CreateRequest/CreateResponse encoded ([same]).
+// (Completeness - "an OID of the table is always found" - needs "a finished range over a
+// map has visited every key", which govc does not model: unverified.)
+//@ func getHashAlgorithmFromOID
+//@   ensures [sound] result != 0 ==> has(hashOIDs, result) && oidEq(hashOIDs[result], target)
+//@   ensures [same] forallv(h, crypto.Hash, result != 0 && has(hashOIDs, h) && oidEq(hashOIDs[h], target) ==> result == h)
+//@   modifies nothing
+
+//@ func getOIDFromHashAlgorithm
+//@   ensures [sound] result != nil ==> has(hashOIDs, target) && same(result, hashOIDs[target])
+//@   ensures [unknown] !has(hashOIDs, target) ==> result == nil
+//@   modifies nothing
+
+// "hash ... If zero, SHA-1 will be used."
+//@ func (*RequestOptions).hash
+//@   ensures result == ite(opts == nil || opts.Hash == 0, crypto.SHA1, opts.Hash)
+//@   modifies nothing
+//@   terminates
+
+// ---------------------------------------------------------------- requests
+// "Marshal marshals the OCSP request to ASN.1 DER encoded form": what is handed to the
+// encoder is a one-element request list whose CertID carries the table OID of
+// req.HashAlgorithm, the two hashes and the serial number of req (RFC 6960 4.1.1); an
+// algorithm outside the table is an error. maypanic: the shared assumed contract of the
+// reflection-driven asn1.Marshal (x509sig.contracts) does not claim panic-freedom.
+//@ pred reqList(v) = unboxed(v, ocspRequest).TBSRequest.RequestList
+//@ func (*Request).Marshal
+//@   requires req != nil
+//@   ensures  [unknown] !has(hashOIDs, req.HashAlgorithm) ==> result1 != nil
+//@   at call asn1.Marshal assert typeis(arg0, ocspRequest) && len(reqList(arg0)) == 1 && unboxed(arg0, ocspRequest).TBSRequest.Version == 0
+//@   at call asn1.Marshal assert has(hashOIDs, req.HashAlgorithm) && same(reqList(arg0)[0].Cert.HashAlgorithm.Algorithm, hashOIDs[req.HashAlgorithm])
+//@   at call asn1.Marshal assert same(reqList(arg0)[0].Cert.NameHash, req.IssuerNameHash) && same(reqList(arg0)[0].Cert.IssuerKeyHash, req.IssuerKeyHash) && reqList(arg0)[0].Cert.SerialNumber == req.SerialNumber
+//@   maypanic
+//@   modifies nothing
+
+// "ParseRequest parses an OCSP request in DER form. It only supports requests for a single
+// certificate." (C01: no panic on any input, relative to the assumed decoder contract.)
+// The hash reported is a table entry, i.e. one CreateRequest accepts.
+//@ func ParseRequest
+//@   ensures [shape] result1 == nil ==> result0 != nil && fresh(result0)
+//@   ensures [err] result1 != nil ==> result0 == nil
+//@   ensures [hash] result1 == nil ==> result0.HashAlgorithm != 0 && tableHash(result0.HashAlgorithm)
+//@   modifies nothing
+
+// "CreateRequest returns a DER-encoded, OCSP request for the status of cert. If opts is nil
+// then sensible defaults are used": success only for a hash of the table (every hash the
+// parser recognises, and only those); the request asks for cert's serial number.
+// x509.ErrUnsupportedAlgorithm = errors.New(...) (x509/x509.go; assigned only there; the x509
+// contract files state the same invariant for the x509 package)
+//@ global x509.ErrUnsupportedAlgorithm != nil
+//@ func CreateRequest
+//@   requires cert != nil && issuer != nil
+//@   ensures [hash] result1 == nil ==> tableHash(ite(opts == nil || opts.Hash == 0, crypto.SHA1, opts.Hash))
+//@   at call Marshal assert arg0 != nil && arg0.HashAlgorithm == ite(opts == nil || opts.Hash == 0, crypto.SHA1, opts.Hash) && arg0.SerialNumber == cert.SerialNumber
+//@   maypanic
+//@   modifies nothing
+
+// ---------------------------------------------------------------- CreateResponse
+// signingParamsForPublicKey: the hash used for signing and the AlgorithmIdentifier written
+// into the response belong to one row of signatureAlgorithmDetails - the table the parser
+// (getSignatureAlgorithmFromOID) uses to map the OID back - when an algorithm is requested;
+// the hash is a real one (MD2, which has no implementation, is refused).
+//@ global forall(i, 0, len(signatureAlgorithmDetails), 0 <= signatureAlgorithmDetails[i].hash && signatureAlgorithmDetails[i].hash < 20)
+//@ func signingParamsForPublicKey
+//@   requires typeis(pub, *ecdsa.PublicKey) ==> unboxed(pub, *ecdsa.PublicKey) != nil
+//@   ensures [hash] err == nil ==> 1 <= hashFunc && hashFunc < 20
+//@   ensures [row] err == nil && requestedSigAlgo != 0 ==> exists(i, 0, len(signatureAlgorithmDetails), signatureAlgorithmDetails[i].algo == requestedSigAlgo && signatureAlgorithmDetails[i].hash == hashFunc && same(sigAlgo.Algorithm, signatureAlgorithmDetails[i].oid))
+//@   ensures [default] err == nil && requestedSigAlgo == 0 ==> hashFunc == crypto.SHA256 || hashFunc == crypto.SHA384 || hashFunc == crypto.SHA512
+//@   modifies nothing
+//@   terminates
+
+// "CreateResponse returns a DER-encoded OCSP response with the specified contents."
+//  [issuerhash]    "If template.IssuerHash is not set, SHA1 will be used"; only table hashes
+//  at call ...     (C03/C13) what is signed: the ResponseData handed to the encoder carries the
+//                  template's serial number and status; its encoding (tbsResponseDataDER) is
+//                  written into a hash.Hash created from hashFunc - the hash that
+//                  signingParamsForPublicKey returned together with the announced algorithm -
+//                  whose Sum(nil) is taken, and priv.Sign is told that same hash.
+//                  (That the digest argument of Sign IS the value Sum returned cannot be
+//                  written: the intermediate value has no name. See notes.)
+// maypanic: asn1.Marshal's shared assumed contract does not claim panic-freedom.
+// modifies all: no frame claimed (the frame obligations of this 110-line builder with 15
+// allocating calls take 40-80 s each; the property does not ask for one).
+//@ pred rd(v) = unboxed(v, responseData)
+//@ func CreateResponse
+//@   requires issuer != nil && responderCert != nil && priv != nil
+//@   ensures  [issuerhash] result1 == nil ==> tableHash(ite(template.IssuerHash == 0, crypto.SHA1, template.IssuerHash))
+//@   at call asn1.Marshal#1 assert typeis(arg0, responseData) && len(rd(arg0).Responses) == 1 && rd(arg0).Responses[0].CertID.SerialNumber == old(template.SerialNumber) && rd(arg0).Version == 0
+//@   at call asn1.Marshal#1 assert (bool(rd(arg0).Responses[0].Good) <==> old(template.Status) == Good) && (bool(rd(arg0).Responses[0].Unknown) <==> old(template.Status) == Unknown)
+//@   at call Hash).New#2 assert arg0 == hashFunc
+//@   at call Writer).Write#3 assert arg0 == responseHash && same(arg1, tbsResponseDataDER)
+//@   at call Hash).Sum#3 assert arg0 == responseHash && arg1 == nil
+//@   at call Signer).Sign assert arg0 == priv && typeis(arg3, crypto.Hash) && unboxed(arg3, crypto.Hash) == hashFunc
+//@   maypanic
+//@   modifies all
